@@ -790,21 +790,27 @@ def rule_orbital_inverse(ctx):
     fn = tus['rotations.c'].func('reb_rotation_to_orbital')
     L = extents.lets(fn)
     pc = pathcond.conditions(fn)
-    pi_flag = zero_flag = None
-    for d in walk(cfront.body(fn)):
-        if d.get('kind') == 'VarDecl' and 'init' in d and 'int' in qtype(d):
-            init = [c for c in d.get('inner', []) if c.get('kind') not in ('FullComment',)]
-            txt = render(init[-1]) if init else ''
-            if 'fabs' in txt and 'inc' in txt:
-                if '3.14159' in txt or 'M_PI' in txt:
-                    pi_flag = d['name']
-                else:
-                    zero_flag = d['name']
-    anchor(pi_flag and zero_flag, 'reb_rotation_to_orbital: the two tests that separate inc ~ 0 and inc ~ pi')
+    # the two tests that separate the degenerate inclinations: |inc| > eps (away from 0) and |inc - pi| > eps (away from pi);
+    # they may be written in place or named by flag locals (path conditions show the expanded comparisons either way)
+    import re as _re
+    def _cls(atom):
+        """'Z' / 'P' for an atom that says inc is away from 0 / from pi, 'z' / 'p' for its negation, '' otherwise"""
+        a_ = atom.replace(' ', '')
+        neg = a_.startswith('!')
+        core = a_[1:] if neg else a_
+        while core.startswith('(') and core.endswith(')'):
+            core = core[1:-1]
+        if '&&' in core or '||' in core:
+            return ''
+        if 'fabs' in core and 'inc' in core and '>' in core:
+            k_ = 'P' if ('3.14159' in core or 'M_PI' in core) else 'Z'
+            return k_.lower() if neg else k_
+        return ''
+    pi_flag = zero_flag = True
     HS, HD = sp.symbols('HS HD', real=True)
 
     def lin(e):
-        txt = extents.canon(extents.resolve(render(e), {k_: v_ for k_, v_ in L.items() if k_ not in (pi_flag, zero_flag)}))
+        txt = extents.canon(extents.resolve(render(e), L))
         txt = txt.replace('atan2q.iz,q.r', 'HS').replace('atan2q.iy,q.ix', 'HD')
         if 'atan2' in txt or 'q.' in txt:
             raise AnalysisError('R20.10: %s in reb_rotation_to_orbital is not a combination of atan2(iz, r) and atan2(iy, ix)' % render(e))
@@ -812,12 +818,14 @@ def rule_orbital_inverse(ctx):
     branches = {}
     for e in walk(cfront.body(fn)):
         if is_assign(e) and e['opcode'] == '=' and render(e['inner'][0]).replace(' ', '').strip('()') in ('*Omega', '*omega'):
-            atoms = [a_.strip('()') for a_ in pc.get(id(e), [])]
-            if any(zero_flag in a_ and pi_flag in a_ and not a_.startswith('!') for a_ in atoms):
+            raw = pc.get(id(e), [])
+            kinds = [_cls(a_) for a_ in raw]
+            both = any(('fabs' in a_ and a_.count('fabs') >= 2 and '&&' in a_ and not a_.replace(' ', '').startswith('!')) for a_ in raw)
+            if both:
                 br = 'general'
-            elif ('!' + zero_flag) in atoms:
+            elif 'z' in kinds:
                 br = 'inc~0'
-            elif zero_flag in atoms or ('!' + pi_flag) in atoms:
+            elif 'Z' in kinds or 'p' in kinds:
                 br = 'inc~pi'
             else:
                 # an assignment common to both degenerate branches
